@@ -14,7 +14,7 @@ Level: fault enumeration (observed) + proof of the protocol lemmas.
 """
 import os, re, random
 from . import lib
-from .c14_util import check_theorems, Script, Gen, hx, reference_builds, json_docs, parse_snap
+from .c14_util import check_theorems, Script, Gen, hx, reference_builds, json_docs, parse_snap, deep_build, CORE_FIELDS
 from .c14 import build_harness, gen_reset_consts
 
 MACRO_DEFS = ['-DFLATCC_ALLOC=fi_malloc', '-DFLATCC_CALLOC=fi_calloc', '-DFLATCC_REALLOC=fi_realloc', '-DFLATCC_FREE=fi_free',
@@ -95,6 +95,29 @@ def run(ctx):
     pst.emit('ta:1:24:8:ee' + '00' * 7 + ee(8) + 'eeee' + '00' * 6)      # struct { ubyte; ulong; ushort } written in place
     r_ = pst.emit('et'); pst.emit('eb:$%d' % r_)
     scen.append(('build:padded_struct_ee', pst.ops, True))
+    # union vectors long enough that end_union_vector / create_union_vector THEMSELVES grow the data stack (temporary type and
+    # offset arrays: count * 5 resp. count * 4 + count bytes on top of the elements)
+    def uvec_scenario(n, create, in_table=True):
+        s = Script()
+        s.emit('sb:0:0:0'); s.emit('st:3')
+        s.emit('st:1'); s.emit('ta:0:4:4:' + ee(4)); a = s.emit('et')
+        elems = ';'.join(('1,$%d' % a) if i % 3 else '0,0' for i in range(n))
+        if create:
+            u = s.emit('cu:' + elems)
+        else:
+            s.emit('su')
+            parts = elems.split(';')
+            for b in range(0, n, 16): s.emit('xu:' + ';'.join(parts[b:b + 16]))
+            u = s.emit('eu')
+        s.emit('to:0:%%%d' % u); s.emit('to:1:$%d' % u)
+        r = s.emit('et'); s.emit('eb:$%d' % r)
+        return s.ops
+    for n in ((20, 24, 40, 70) if not ctx.thorough else (19, 20, 21, 24, 31, 32, 40, 51, 70, 130, 300)):
+        scen.append(('build:union_vector_end%d' % n, uvec_scenario(n, False), False))
+    for n in ((52, 56, 70, 130) if not ctx.thorough else (12, 51, 52, 53, 56, 63, 64, 65, 70, 130, 300)):
+        scen.append(('build:union_vector_create%d' % n, uvec_scenario(n, True), False))
+    # create_union_vector as the very first user of the data stack (created before the buffer is started)
+    scen.append(('build:union_vector_create_first', ['cu:' + ';'.join(['0,0'] * 9), 'sb:0:0:0', 'st:2', 'to:0:%0', 'to:1:$0', 'et', 'eb:$5'], False))
     jdocs = docs if ctx.thorough else [docs[1], docs[3], docs[5], docs[6], docs[8], docs[9]]
     for i, d in enumerate(jdocs):
         scen.append(('json:doc%d' % i, ['jp:%s:0' % hx(d.encode())], False))
@@ -115,13 +138,62 @@ def run(ctx):
         """what is built after the reset: the scenario itself when it is a complete build (its frames then cover the data stack
         positions the failed run left dirty), else the fixed reference build"""
         return Script(ops) if ops and ops[-1].split(':')[0] in ('eb', 'cb') and not any(t.split(':')[0] in ('su', 'rm') for t in ops) else ref
-    def line(cfg, arm, ops, disarm):
+    # after the rebuild: a fixed battery of OTHER builds on the same (reset) builder, each compared with a fresh builder; what a failed
+    # scenario leaves behind need not show when the same scenario is replayed (settings, limits, pools)
+    deep150 = Script(['GUARD']); deep150.extend(deep_build(150)); deep150.emit('REC')
+    mv = Script(); mv.emit('sb:0:0:0'); ks = []
+    for i in range(70):
+        mv.emit('st:%d' % (i + 1)); mv.emit('ta:%d:1:1:%02x' % (i, i + 1)); ks.append(mv.emit('et'))
+    mv.emit('so'); mv.emit('xo:' + ','.join('$%d' % k for k in ks[:35])); mv.emit('xo:' + ','.join('$%d' % k for k in ks[35:])); v_ = mv.emit('eo')
+    mv.emit('st:1'); mv.emit('to:0:$%d' % v_); r_ = mv.emit('et'); mv.emit('eb:$%d' % r_)
+    bigv = Script(['sb:0:0:0', 'st:2', 'cv:%s:7000:1:1:4294967295' % ('c3' * 7000), 'to:0:$2', 'sS', 'aS:%s' % ('61' * 3000), 'eS', 'to:1:$6', 'et', 'eb:$8'])
+    deepj = Script(['jr:%s:0' % hx(('{"kids":[' * 30 + '{"n":1}' + ']}' * 30).encode())])
+    battery = [('deep150', deep150), ('many_vtables', mv), ('big_vector', bigv), ('deep_json', deepj)]
+    def line(cfg, arm, ops, disarm, rot=0):
         s = Script([arm, 'GUARD'] if arm else ['GUARD'])
         s.extend(Script(ops)); s.emit('REC')
         if disarm: s.emit(disarm)
         s.emit('CNT'); s.emit('snap')
-        s.emit('rs:0:0'); s.extend(rebuild_of(ops)); s.emit('fin'); s.emit('clr'); s.emit('LIVE')
+        s.emit('rs:0:0'); s.emit('snap'); s.extend(rebuild_of(ops)); s.emit('fin')
+        # the deep chain always (nesting limits), one more battery item in rotation
+        for bname, b in (battery[0], battery[1 + rot % 3]):
+            s.emit('rs:0:0'); s.extend(b); s.emit('fin')
+        s.emit('clr'); s.emit('LIVE')
         return 'cfg:%s %s' % (cfg, ' '.join(s.ops)), s.ops
+    def parts(toks, t):
+        """positions of the recovery part of a reply: snapshot after the first reset, fin tokens in order, LIVE"""
+        fins = [j for j, x in enumerate(toks) if x == 'fin']
+        i_rs = toks.index('rs:0:0', toks.index('CNT'))
+        return {'after_reset': t[i_rs + 1] if len(t) > i_rs + 1 else '{}', 'fins': [t[j] if j < len(t) else None for j in fins], 'live': t[-1]}
+    bat_fresh = {}
+    for cfgx in ('0:0', '1:1'):
+        for (bname, b), rep in zip(battery, lib.run_harness_resilient(H, ['cfg:%s %s fin' % (cfgx, ' '.join(b.ops)) for _, b in battery])):
+            bat_fresh[(cfgx, bname)] = rep.split()[-1] if rep else None
+            if not rep or 'CRASH' in rep or rep.split()[-1] in ('-', 'FINFAIL', 'COPYFAIL'):
+                ctx.violation('fresh-build-failed:battery:' + bname, 'battery build %s does not build on a fresh builder: %s' % (bname, rep[:200]), {'harness_line': 'cfg:%s %s fin' % (cfgx, ' '.join(b.ops))})
+    rcf, frs, _ = H.run(['cfg:0:0 snap'])
+    fresh_state = parse_snap(frs[0].split()[0]) if frs else {}
+    def check_recovery(name, cfg, toks, t, tag, rot, l, extra):
+        """state right after reset == fresh builder; rebuild and battery bytes == fresh builder; nothing live after clear"""
+        P = parts(toks, t)
+        sn = parse_snap(P['after_reset'])
+        bad = [f for f in CORE_FIELDS if f in fresh_state and sn.get(f) != fresh_state.get(f) and f != 'rm_count']
+        if bad:
+            ctx.violation('reset-state-differs-after-failure:' + bad[0], 'scenario %s, %s: after reset the builder field %s is %s, a freshly initialised builder has %s' % (
+                              name, tag, bad[0], sn.get(bad[0]), fresh_state.get(bad[0])), dict(extra, harness_line=l))
+        exp = [fresh_of.get(name) or '', bat_fresh.get((cfg, 'deep150')), bat_fresh.get((cfg, battery[1 + rot % 3][0]))]
+        names = ['rebuild of the scenario', 'battery deep150', 'battery ' + battery[1 + rot % 3][0]]
+        for got, want, what in zip(P['fins'], exp, names):
+            if got != want:
+                if got == 'FINFAIL' and extra.get('mechanism') == 'macro': key = 'emitter-used-stale'
+                elif what.startswith('rebuild'): key = 'rebuild-after-failure-differs:' + name.split(':')[0]
+                else: key = 'battery-after-failure-differs:' + what.split()[-1]
+                ctx.violation(key, 'scenario %s, %s: after reset the %s yields %d bytes (%s...) that differ from the %d bytes of a fresh builder' % (
+                                  name, tag, what, len(got or '') // 2, (got or '')[:40], len(want or '') // 2), dict(extra, harness_line=l))
+                break
+        if P['live'] != '0':
+            ctx.violation('live-after-clear:' + name.split(':')[0], 'scenario %s, %s: %s (live blocks * 1000 + bookkeeping errors) after flatcc_builder_clear' % (name, tag, P['live']),
+                          dict(extra, harness_line=l))
     # bytes of each rebuild on a freshly initialised builder
     fresh_of = {}
     fl = []
@@ -150,10 +222,7 @@ def run(ctx):
         counts[(name, cfg)] = (int(t[i_cnt]), int(sn['alloc_calls']), int(sn['emit_calls']))
         if t[toks.index('REC')] != 'clean':
             ctx.violation('unarmed-failure:' + name, 'a call of scenario %s fails without injected failure: %s' % (name, ' '.join(t[:40])), {'harness_line': l})
-        if t[-3] != fresh_of.get(name):
-            ctx.violation('unarmed-rebuild:' + name, 'rebuild after scenario %s differs from a fresh builder' % name, {'harness_line': l})
-        if t[-1] != '0':
-            ctx.violation('unarmed-live:' + name, 'blocks live after clear: %s' % t[-1], {'harness_line': l})
+        check_recovery(name, cfg, toks, t, 'no failure injected', 0, l, {'scenario': name})
     ctx.sample({'request_counts (macro, callback allocs, emits)': {k[0] + '/' + k[1]: v for k, v in list(counts.items())[:8]}})
 
     # ---------------------------------------------------------------- pass 2: every k, three mechanisms, single / repeated
@@ -165,16 +234,17 @@ def run(ctx):
         if not ctx.thorough and max(nm, na1, ne1) > 60: step = 2
         for rep in (0, 1):
             for k in range(0, nm, step):
-                l, toks = line('0:0', 'FM:%d:%d' % (k, rep), ops, 'FM:-1')
+                l, toks = line('0:0', 'FM:%d:%d' % (k, rep), ops, 'FM:-1', k)
                 runs.append((name, 'macro', k, rep, False, l, toks))
             for k in range(0, na1, step):
-                l, toks = line('1:1', 'FA:%d:%d' % (k, rep), ops, 'FA:-1:0')
+                l, toks = line('1:1', 'FA:%d:%d' % (k, rep), ops, 'FA:-1:0', k)
                 runs.append((name, 'alloc-callback', k, rep, model, l, toks))
             for k in range(0, ne1, step):
-                l, toks = line('1:1', 'FE:%d:%d' % (k, rep), ops, 'FE:-1:0')
+                l, toks = line('1:1', 'FE:%d:%d' % (k, rep), ops, 'FE:-1:0', k)
                 runs.append((name, 'emit-callback', k, rep, model, l, toks))
     ctx.log('%d scenarios, %d fault runs' % (len(scen), len(runs)))
     rr = lib.run_harness_resilient(H, [r[5] for r in runs], timeout=1500)
+    ctx.log('fault runs done')
     # Model queries.  Emit failures: the k-th emit call is the same call on both sides (the number of emit calls is fixed by the API).
     # Allocation failures: WHICH call needs the k-th allocation depends on the allocator's sizing policy, which the property leaves
     # open; so the implementation's run tells at which op the failure surfaced and the model is asked for the consequences of
@@ -199,6 +269,7 @@ def run(ctx):
             ml = model_line(r, rep)
             if ml: mruns.append((r, ml))
     mres = ctx.run_model('reset', [ml for _, ml in mruns], timeout=1500) if mruns else []
+    ctx.log('model runs done (%d)' % len(mruns))
     mmap = {id(r): m for (r, _), m in zip(mruns, mres)}
 
     def norm(tokens):
@@ -232,15 +303,7 @@ def run(ctx):
                 else: key = 'failure-swallowed:' + name.split(':')[0]
                 ctx.violation(key, 'scenario %s: the %s was not reported by any call of the build (all calls returned success)' % (name, tag),
                               {'harness_line': l, 'scenario': name, 'mechanism': mech, 'k': k, 'repeated': rp, 'reply': ' '.join(t[:60])})
-        fin = t[-3]
-        fresh_bytes_n = fresh_of.get(name) or ''
-        if fin != fresh_bytes_n:
-            key = 'emitter-used-stale' if fin == 'FINFAIL' and mech == 'macro' else 'rebuild-after-failure-differs:' + name.split(':')[0]
-            ctx.violation(key, 'scenario %s, %s: after reset the rebuild yields %d bytes (%s...) that differ from the %d bytes of a fresh builder' % (name, tag, len(fin) // 2, fin[:40], len(fresh_bytes_n) // 2),
-                          {'harness_line': l, 'scenario': name, 'mechanism': mech, 'k': k, 'repeated': rp})
-        if t[-1] != '0':
-            ctx.violation('live-after-clear:' + name.split(':')[0], 'scenario %s, %s: %s (live blocks * 1000 + bookkeeping errors) after flatcc_builder_clear' % (name, tag, t[-1]),
-                          {'harness_line': l, 'scenario': name, 'mechanism': mech, 'k': k})
+        check_recovery(name, '0:0' if mech == 'macro' else '1:1', toks, t, tag, k, l, {'scenario': name, 'mechanism': mech, 'k': k, 'repeated': rp})
         if model and id(r) in mmap:
             m = mmap[id(r)].split()
             # the model has no CNT / LIVE; compare the guarded section (return value of every call, which call fails) and the rebuild
@@ -284,7 +347,7 @@ def run(ctx):
                           {'harness_line': l, 'build': 'no NDEBUG, -DFLATCC_BUILDER_ASSERT_ON_ERROR=0', 'stderr': rep[:1500]})
             continue
         t = rep.split()
-        if t[-3] != (fresh_of.get(name) or ''):
+        if parts(toks, t)['fins'][0] != (fresh_of.get(name) or ''):
             ctx.violation('rebuild-after-failure-differs:assert-build', 'assert-enabled build, scenario %s, %s k=%d: rebuild after reset differs from a fresh builder' % (name, mech, k),
                           {'harness_line': l})
 
